@@ -18,6 +18,26 @@ CHECKS = {
    text="The whole-day domain is enumerated completely in both date systems on every run (quick too); fractional parts, day/millisecond boundaries, values beyond the calendar and non-finite values are sampled (300k points quick, 40M thorough) against exact rational arithmetic on the f64 bit pattern with a stated tolerance. as_date/as_time/Data::Int/Float/as_duration and the deserialize_as_* helpers are cross-checked.",
    note="Trusts the harness's days-from-civil arithmetic (self-tested by round trip) and chrono's field accessors (used only to read calamine's answer). Serial 0, the fictitious day [60,61) and negative serials: only no-panic is asserted.",
    design="4/C11"),
+ "C01": dict(
+   technique="property-based round-trip/differential testing (proptest): logical workbook -> harness's own XLSX+ZIP encoder under generated physical encodings -> calamine -> compared with the model; every case is read under two independently derived encodings (metamorphic: encoding independence); exhaustive sweep of all 16384 column names through files and the cell-reference hook",
+   text="Generated-input exploration with an independent encoder: position, value and type of every cell, tight bounds and used_cells are asserted through worksheet_range and worksheet_range_ref, under implicit/explicit references with filler elements, absent/exact/wrong dimension, shared/inline/rich strings, x: prefixes per part, BOM, three relationship-target spellings, part-name case, zip method/order/data descriptors. All 16384 columns are enumerated on every run.",
+   note="Trusts the harness encoder (enc/xlsx.rs, enc/zipw.rs) and the mapping table in expected_cell. Conventions every producer follows are kept (fixed part names, r:id, ascending rows, <f> before <v>).",
+   design="4/C01"),
+ "C10": dict(
+   technique="property-based testing (proptest) with a constructive grammar generator that records the class of each format string while building it, exhaustive enumeration of all strings of length <=5/6 over a 14-symbol alphabet against an independent reference tokenizer, exhaustive built-in id sweep, and generated style tables read end-to-end through files",
+   text="The classifier is checked as a function of a string language (20k quick / 1M thorough grammar strings + 0.6M / 8M exhaustive short strings) and end-to-end: custom ids in any order, XFs referencing built-in and custom ids, unused XFs, cellStyleXfs and dxf decoys, numeric cells untyped / t=n / cached formula, both date systems, prefixed parts. Currently the file-level part covers xlsx; xls/xlsb columns are added as their encoders land.",
+   note="Trusts the grammar generator's recorded class and the reference tokenizer (model/numfmt.rs). Locale-dependent built-in ids are only required to agree between the two tables.",
+   design="4/C10"),
+ "C15": dict(
+   technique="property-based testing (proptest): generated formula ASTs rendered to text, shared-formula groups (column/row/block) encoded into real xlsx files; oracle = AST-level translation (only relative components move) rendered back to text; plus the same relation on the translation function through a hook with larger offsets",
+   text="Exploration over an open-ended formula language: mixed/absolute/relative references at boundary columns, sheet-qualified (quoted, cell-like, non-ASCII) references, function names with digits, defined names with digits, exponent numbers, strings with cell-like text and doubled quotes; 1-4 groups per sheet with si gaps among ordinary formulas and constants; every member of the declared range and every non-member is asserted through worksheet_formula.",
+   note="Trusts the harness AST renderer/shifter (model/formula.rs). Master = top-left cell of ref; si ascending; references stay inside the sheet after translation.",
+   design="4/C15"),
+ "C19": dict(
+   technique="property-based round-trip testing (proptest): generated Unicode strings x storage forms encoded by the harness writers, exact string equality at the cell",
+   text="Exploration of the string space (XML specials, edge/repeated spaces, TAB/LF/CR, combining marks, astral characters, empty, up to 32767 units) crossed with storage forms. xlsx: shared/inline/t=str, plain/rich runs/phonetic, entities/hex/decimal references/CDATA, empty shared items of four kinds before and between used items (index alignment). Other formats are added as their encoders land.",
+   note="Trusts the encoders' escaping routines. XML formats are restricted to XML 1.0 characters; _xHHHH_ escapes are not generated.",
+   design="4/C19"),
 }
 
 NOT_APPLICABLE = {
